@@ -18,7 +18,7 @@ EXPLANATION = (
     "built on the false edge.  R-C12-3: modularity's value depends on communities, weighted, resolution, the degree functions and the "
     "induced subgraphs' edges.  R-C12-4: on the data path from the stored edge list to L_c (get_subgraph's edge list, the "
     "contribution closure of modularity) no operation on edges merges, drops or truncates them (unique/dedup/set-collect/take/...) "
-    "-- necessary for `parallel edges counted individually`.  NOT decided: that is_partition is exactly the partition predicate, and Newman's formula (numerical)."
+    "-- necessary for `parallel edges counted individually`.  R-C12-8: the self-loop correction of the degrees behind the degree sums is a count / sum, never a truth value turned into a number.  NOT decided: that is_partition is exactly the partition predicate, and Newman's formula (numerical)."
 )
 TRUSTED = ["rustc MIR construction", "over-approximated dependence (absence is definite)"]
 
@@ -169,6 +169,9 @@ def run(ctx):
     from props.c09 import degrees_from_edge_lists
 
     degrees_from_edge_lists(ctx, prog, flows, "R-C12-7", ("get_node_weighted_in_degree", "get_node_weighted_out_degree", "get_node_in_degree", "get_node_out_degree", "get_node_degree", "get_node_weighted_degree"), "the degree sums and m of the modularity formula count a bundle of parallel edges once (at its smallest weight) while L_c counts every edge")
+    from props.c09 import selfloop_term_counts_every_loop
+
+    selfloop_term_counts_every_loop(ctx, prog, flows, "R-C12-8", "so the degree sums of the modularity formula fall short of 2m and a single community holding every node no longer has modularity 0")
     ctx.rule("R-C12-6", "the per-community edge term is counted on an induced subgraph whose candidate edges are the whole edge store")
     subgraph_edge_source(ctx, prog, flows, "R-C12-6", "the intra-community term L_c of the modularity under- or over-counts")
     ctx.rule("R-C12-5", "L_c is taken from the induced subgraph on every path: the variable that holds it has no constant definition")
